@@ -33,8 +33,9 @@ func TestMain(m *testing.M) {
 
 const gmax = 12
 
-var upstreams = []string{"alpha", "beta", "gamma"}
-var instances = []string{"gw-a", "gw-b", "gw-c", "10.0.0.1:443"}
+var upstreams = []string{"alpha", "alpha-2", "gamma"}
+// identities and upstream names that are prefixes / extensions of each other, and one that is not a valid label value
+var instances = []string{"gw-a", "gw-b", "gw-a-1", "gw", "10.0.0.1:443"}
 
 func cluster(name string) *proxyv1alpha1.UpstreamCluster {
 	// token-bucket schemas sit next to the in-flight ones: the cleanup walks all flow controls of an upstream
@@ -59,7 +60,7 @@ type instModel struct {
 }
 
 func TestPropReclaim(t *testing.T) {
-	sub := stats.NewSub("reclaim-histories", "rapid state machine on the real limiter (2 shards, local / API-backed store, 3 upstreams, 4 instance identities): ops heartbeat, report (allocate; one in three reports of an instance the server has no heartbeat of comes without one: the instance is on record but not alive), acquire (count strategy), go silent, cleanup pass, comeback with the same identity; oracle after every pass: no condition and no in-flight count of a silent instance remains anywhere, running total == per-instance sum, everything of instances with a fresh heartbeat is unchanged; after the next survivor report the recorded sum excludes the dead instance and the freed in-flight capacity can be taken by a survivor; non-trivial = a pass reclaims >=1 instance that had state while >=1 other instance with state stays, or an instance comes back after being reclaimed; distinct by FNV-64 of the op trace")
+	sub := stats.NewSub("reclaim-histories", "rapid state machine on the real limiter (2 shards, local / API-backed store, 3 upstreams and 5 instance identities, some of which are prefixes / extensions of each other, one not a valid label value): ops heartbeat, report (allocate; one in three reports of an instance the server has no heartbeat of comes without one: the instance is on record but not alive), acquire (count strategy), go silent, cleanup pass, comeback with the same identity; oracle after every pass: no condition and no in-flight count of a silent instance remains anywhere, running total == per-instance sum, everything of instances with a fresh heartbeat is unchanged; after the next survivor report the recorded sum excludes the dead instance and the freed in-flight capacity can be taken by a survivor; non-trivial = a pass reclaims >=1 instance that had state while >=1 other instance with state stays, or an instance comes back after being reclaimed; distinct by FNV-64 of the op trace")
 	stats.Check(t, stats.N(4000, 20000), func(t *rapid.T) {
 		kind := rapid.SampledFrom([]string{"local", "k8s"}).Draw(t, "store")
 		box := limbox.New(kind, 2, "srv")
